@@ -321,6 +321,14 @@ def start_trace_tlc(mode, trace, nobj, variant, props, tag):
     d = os.path.join(WORK, "tv_%s_%s" % (mode, tag))
     shutil.rmtree(d, ignore_errors=True)
     os.makedirs(d)
+    # the universe of object ids is what the trace mentions (a library that lost a count may
+    # make make_mut allocate where the script did not plan an allocation)
+    try:
+        with open(trace, "rb") as f:
+            ids = re.findall(rb'"id":(\d+)', f.read())
+        nobj = max([nobj] + [int(x) for x in set(ids)])
+    except OSError:
+        pass
     # a tiny per-run module so that the property set is a definition, not a cfg literal
     mod = "TV_%s_%s" % (mode, re.sub(r"\W", "_", tag))
     with open(os.path.join(SPEC, mod + ".tla"), "w") as f:
@@ -661,6 +669,14 @@ def run_check(prop, tier, seed, replay):
                 for sc in scenarios.generate():
                     f.write(json.dumps(sc) + "\n")
             script_files.append(("scenarios", pth, 4))
+        if "cpanic" in P["fams"]:
+            import scenarios
+            pth = os.path.join(wd, "scenarios_panic.ndjson")
+            with open(pth, "w") as f:
+                for k in (1, 2):
+                    for sc in scenarios.generate(panic_obj=k):
+                        f.write(json.dumps(sc) + "\n")
+            script_files.append(("scenarios-panic", pth, 4))
         # 3d. systematic forgotten-unadopt templates (tools/elide_scen.py), several heap layouts each
         if "elide" in P["fams"] and not os.environ.get("VERIF_SKIP_TEMPLATES"):   # (knob used to test 6a alone)
             import elide_scen
